@@ -39,23 +39,28 @@ inductive Status where
 def Status.letter : Status → String
   | .done => "d" | .more => "m" | .err => "e"
 
-/-- Parser programs. `k` = the rest of the program. -/
+/-- Parser programs. `k` = the rest of the program. Every instruction that looks at the token
+queue first waits until the tokens it looks at are queued (as the Go code does: each
+`lexer.tokens[i]` follows a `ParserPeekNextToken(i)`, each `GetNextToken` lexes until a token is
+there), so a program never observes how far ahead the lexer happens to have read. -/
 inductive Prog (α : Type) where
   | pure (a : α)
   | fail                                             -- a parse error
   | waitPeek (extra : Nat) (k : Token → Prog α)      -- wait until `extra+1` tokens are queued; head token
+  | peekAt (i : Nat) (k : Token → Prog α)            -- wait until `i+1` tokens are queued; `lexer.tokens[i]`
+  | getTok (k : Token → Prog α)                      -- `GetNextToken` below the top level: wait for a token, take it
   | topGet (k : Option Token → Prog α)               -- top level: next token, `none` when the input is used up
-  | getToks (k : List Token → Prog α)                -- read the token queue
-  | setToks (ts : List Token) (k : Prog α)           -- replace the token queue
+  | pushTok (t : Token) (k : Prog α)                 -- prepend a token to the queue
   | pushExpr (e : Sexp) (k : Prog α)                 -- sendMe.Expr = append(sendMe.Expr, e)
 
 def Prog.bind {α β : Type} : Prog α → (α → Prog β) → Prog β
   | .pure a, f => f a
   | .fail, _ => .fail
   | .waitPeek n k, f => .waitPeek n (fun t => (k t).bind f)
+  | .peekAt n k, f => .peekAt n (fun t => (k t).bind f)
+  | .getTok k, f => .getTok (fun t => (k t).bind f)
   | .topGet k, f => .topGet (fun t => (k t).bind f)
-  | .getToks k, f => .getToks (fun t => (k t).bind f)
-  | .setToks ts k, f => .setToks ts (k.bind f)
+  | .pushTok t k, f => .pushTok t (k.bind f)
   | .pushExpr e k, f => .pushExpr e (k.bind f)
 
 instance : Monad Prog where
@@ -64,30 +69,22 @@ instance : Monad Prog where
 
 def waitPeek (extra : Nat) : Prog Token := .waitPeek extra .pure
 def topGet : Prog (Option Token) := .topGet .pure
-def getToks : Prog (List Token) := .getToks .pure
-def setToks (ts : List Token) : Prog Unit := .setToks ts (.pure ())
+def pushTok (t : Token) : Prog Unit := .pushTok t (.pure ())
 def pushExpr (e : Sexp) : Prog Unit := .pushExpr e (.pure ())
 def fail {α : Type} : Prog α := .fail
 
 /-- drop the queue head (a `GetNextToken` directly after a successful peek) -/
-def popTok : Prog Unit := do
-  let _ ← waitPeek 0
-  let ts ← getToks
-  setToks ts.tail
+def popTok : Prog Unit := .getTok (fun _ => .pure ())
 
 /-- `lexer.tokens[i]` after a successful `ParserPeekNextToken(i)` -/
-def tokAt (i : Nat) : Prog Token := do
-  let _ ← waitPeek i
-  let ts ← getToks
-  match ts[i]? with
-  | some t => pure t
-  | none => fail
+def tokAt (i : Nat) : Prog Token := .peekAt i .pure
 
 def sym (s : String) : Sexp := Sexp.mkSym s
 
 def hashTok : Token := ⟨.symbol, "hash".toList⟩
 
-/-- first byte of the UTF-8 encoding of a code point (`rune(tok.str[0])`) -/
+/-- first byte of the UTF-8 encoding of a code point (`rune(tok.str[0])`, what the parser took
+before repo fix C12-01; kept for `Model/LegacyReadPrint`) -/
 def firstByte (c : Char) : Nat :=
   let n := c.toNat
   if n < 0x80 then n
@@ -113,7 +110,7 @@ def atomOfTok (tok : Token) : Option (Option Sexp) :=   -- none: not an atom cas
   | .hex => some ((NumLit.parseInt64 16 tok.str).map .int)
   | .oct => some ((NumLit.parseInt64 8 tok.str).map .int)
   | .binary => some ((NumLit.parseInt64 2 tok.str).map .int)
-  | .char => some (some (.char (match tok.str with | c :: _ => firstByte c | [] => 0)))
+  | .char => some (some (.char (match tok.str with | c :: _ => c.toNat | [] => 0xFFFD)))   -- utf8.DecodeRuneInString (repo fix C12-01)
   | .string => some (some (.str tok.str false))
   | .backtickString => some (some (.str tok.str true))
   | .float =>
@@ -142,8 +139,7 @@ def parseExprTok : Nat → Token → Prog Sexp
       let tok2 := r.1
       let extra := r.2
       let asHash : Prog Sexp := do
-        let ts ← getToks
-        setToks (hashTok :: ts)
+        pushTok hashTok
         parseList fuel .rcurly
       match tok2.typ with
       | .symbolColon => do
@@ -384,8 +380,18 @@ def run {α : Type} : Prog α → PState → Fin α × PState
      | .tok t s' => run (k (some t)) s'
      | .finished .done s' => run (k none) s'
      | .finished st s' => (.stop st, s'))
-  | .getToks k, s => run (k s.lex.tokens) s
-  | .setToks ts k, s => run k { s with lex := { s.lex with tokens := ts } }
+  | .peekAt i k, s =>
+    (match peekWaitRun i (s.size + 1) s with
+     | .tok _ s' =>
+       (match s'.lex.tokens[i]? with
+        | some t => run (k t) s'
+        | none => (.stop .err, s'))
+     | .stop st s' => (.stop st, s'))
+  | .getTok k, s =>
+    (match peekWaitRun 0 (s.size + 1) s with
+     | .tok t s' => run (k t) { s' with lex := { s'.lex with tokens := s'.lex.tokens.tail } }
+     | .stop st s' => (.stop st, s'))
+  | .pushTok t k, s => run k { s with lex := { s.lex with tokens := t :: s.lex.tokens } }
   | .pushExpr e k, s => run k { s with exprs := s.exprs ++ [e] }
 
 /-- `Parser.ResetAddNewInput(piece)` on any parser state: the coroutine and the reply are
